@@ -273,7 +273,37 @@ fn compile_mint_block(tx: &tir::Tx) -> Result<Option<primitives::Mint>, Error> {
         (None, None) => None,
     };
 
+    ensure_mint_totals_fit(tx)?;
+
     Ok(all)
+}
+
+/// The aggregation above drops an entry whose total overflows the ledger's signed 64-bit quantity
+/// (it cannot tell an overflow from a total of zero), so the exact totals are checked here.
+fn ensure_mint_totals_fit(tx: &tir::Tx) -> Result<(), Error> {
+    let mut totals: BTreeMap<(Vec<u8>, Vec<u8>), i128> = BTreeMap::new();
+
+    let blocks = tx
+        .mints
+        .iter()
+        .map(|x| (x, 1))
+        .chain(tx.burns.iter().map(|x| (x, -1)));
+
+    for (block, sign) in blocks {
+        for asset in coercion::expr_into_assets(&block.amount)? {
+            let policy = coercion::expr_into_bytes(&asset.policy)?.to_vec();
+            let name = coercion::expr_into_bytes(&asset.asset_name)?.to_vec();
+            let amount = coercion::expr_into_number(&asset.amount)?;
+
+            let total = totals.entry((policy, name)).or_insert(0);
+            *total = total.saturating_add(amount.saturating_mul(sign));
+        }
+    }
+
+    match totals.values().find(|x| i64::try_from(**x).is_err()) {
+        Some(x) => Err(Error::CoerceError(format!("{x}"), "mint total".to_string())),
+        None => Ok(()),
+    }
 }
 
 fn compile_inputs(tx: &tir::Tx) -> Result<Vec<primitives::TransactionInput>, Error> {
